@@ -27,6 +27,19 @@ func MapRange[M ~map[K]V, K comparable, V any](m M) iter.Seq2[K, V] {
 		}
 		var zero K
 		if !orderable(reflect.TypeOf(zero)) {
+			if keys, ok := registered(s, m); ok {
+				s.mapRNG.Shuffle(len(keys), func(i, j int) { keys[i], keys[j] = keys[j], keys[i] })
+				for _, k := range keys {
+					v, ok := m[k]
+					if !ok {
+						continue
+					}
+					if !yield(k, v) {
+						return
+					}
+				}
+				return
+			}
 			s.NativeRanges++
 			for k, v := range m {
 				if !yield(k, v) {
@@ -51,6 +64,25 @@ func MapRange[M ~map[K]V, K comparable, V any](m M) iter.Seq2[K, V] {
 			}
 		}
 	}
+}
+
+// registered returns the keys of m in registration order if every key has been
+// registered with NoteKey.
+func registered[M ~map[K]V, K comparable, V any](s *Sim, m M) ([]K, bool) {
+	s.mu.Lock()
+	defer s.mu.Unlock()
+	if len(s.ptrIDs) == 0 {
+		return nil, false
+	}
+	keys := make([]K, 0, len(m))
+	for k := range m {
+		if _, ok := s.ptrIDs[any(k)]; !ok {
+			return nil, false
+		}
+		keys = append(keys, k)
+	}
+	sort.Slice(keys, func(i, j int) bool { return s.ptrIDs[any(keys[i])] < s.ptrIDs[any(keys[j])] })
+	return keys, true
 }
 
 func orderable(t reflect.Type) bool {
